@@ -1,286 +1,233 @@
 import MgpuProofs.C09CUEmuStep
-/-! # C09, emulation compute unit — `handleWGCompleteEvent` keeps the invariant -/
+/-! # C09, emulation compute unit — the repaired `handleWGCompleteEvent` keeps the invariants
+
+`wgComplete = wgFlush ∘ wgRecord`. `wgRecord` moves `id` from `wfs` to `finished` only if it is
+still mapped, so a retry event (or any second event of the same request) records nothing: the
+three id sets stay disjoint **whatever event fires when**. -/
 namespace C09.CUSide
 
-/-- `finishedMapWGReqs` after the `found` loop -/
-def finAfter (s : Emu) (id : Nat) : List Nat := if id ∈ s.finished then s.finished else s.finished ++ [id]
-
-theorem mem_finAfter (s : Emu) (id x : Nat) : x ∈ finAfter s id ↔ x ∈ s.finished ∨ x = id := by
-  unfold finAfter
-  split
-  · constructor
-    · exact Or.inl
-    · rintro (h | h)
-      · exact h
-      · subst h; assumption
-  · simp
-
-theorem nodup_finAfter {s : Emu} (h : EInv s) (id : Nat) : (finAfter s id).Nodup := by
-  unfold finAfter
-  split
-  · exact h.fin_nd
-  · rename_i hn
-    rw [List.nodup_append]
-    exact ⟨h.fin_nd, by simp, by intro a ha b hb hab; simp at hb; subst hab; subst hb; exact hn ha⟩
-
-/-- what is known when the WGCompleteEvent `(now, id)` is about to be handled -/
-structure WgcCtx (s : Emu) (id : Nat) : Prop where
-  inv : EInv s
-  mem : (s.now, id) ∈ s.wgcs
-  notSent : id ∉ flat s
-  other : ∀ p ∈ s.wgcs.erase (s.now, id), p ∈ s.wgcs ∧ p.2 ≠ id
-  keep : ∀ p ∈ s.wgcs, p.2 ≠ id → p ∈ s.wgcs.erase (s.now, id)
-  memW : ∀ x, x ∈ s.wfs.erase id ↔ x ≠ id ∧ x ∈ s.wfs
-  notQ : id ∉ s.queue
-  idGot : id ∈ s.got
-
-theorem wgcCtx {s : Emu} (h : EInv s) (id : Nat) (hmem : (s.now, id) ∈ s.wgcs) : WgcCtx s id := by
-  have hwd : (s.wgcs.map (fun p : Nat × Nat => p.2)).Nodup := h.wid_nd
-  have hwn : s.wgcs.Nodup := nodup_of_nodup_map _ _ hwd
-  refine ⟨h, hmem, (h.wgc_ok _ hmem).1, ?_, ?_, fun x => h.wfs_nd.mem_erase_iff, ?_, h.wid_got _ hmem⟩
-  · intro p hp
-    have hp' := hwn.mem_erase_iff.mp hp
-    refine ⟨hp'.2, fun hc => hp'.1 ?_⟩
-    exact uniq_of_nodup_map (fun p : Nat × Nat => p.2) s.wgcs hwd p hp'.2 _ hmem hc
-  · intro p hp hne
-    exact (List.mem_erase_of_ne (fun hc => hne (by rw [hc]))).mpr hp
-  · intro hq
-    exact h.q_wid id hq (List.mem_map.mpr ⟨_, hmem, rfl⟩)
-
-/-- the last mapped work-group completes: no other WGCompleteEvent is pending (this is where the
-    time order is used) and nothing is queued -/
-theorem last_group_alone {s : Emu} {id : Nat} (c : WgcCtx s id) (hlast : s.wfs.erase id = []) :
-    s.wgcs.erase (s.now, id) = [] ∧ s.queue = [] := by
-  have h := c.inv
-  constructor
-  · apply List.eq_nil_iff_forall_not_mem.mpr
-    intro p hp
-    obtain ⟨hpw, hpid⟩ := c.other p hp
-    have hpn : p.2 ∉ s.wfs := by
-      intro hc
-      have : p.2 ∈ s.wfs.erase id := (c.memW _).mpr ⟨hpid, hc⟩
-      rw [hlast] at this
-      cases this
-    by_cases hid : id ∈ s.wfs
-    · have h1 := h.r_first p hpw hpn (s.now, id) c.mem hid
-      have h2 := h.t_wgc p hpw
-      simp only at h1
-      omega
-    · have := h.r_one p hpw hpn (s.now, id) c.mem hid
-      exact hpid (by rw [this])
-  · apply List.eq_nil_iff_forall_not_mem.mpr
-    intro x hx
-    have hne : x ≠ id := fun hc => c.notQ (hc ▸ hx)
-    have : x ∈ s.wfs.erase id := (c.memW _).mpr ⟨hne, h.q_wfs x hx⟩
-    rw [hlast] at this
-    cases this
-
-/-- other work-groups are still mapped: the id is only recorded -/
-theorem einv_wgc_wait {s : Emu} {id : Nat} (c : WgcCtx s id) (hne : s.wfs.erase id ≠ []) :
-    EInv { s with wgcs := s.wgcs.erase (s.now, id), wfs := s.wfs.erase id, finished := finAfter s id } := by
-  have h := c.inv
-  have hsub : List.Sublist ((s.wgcs.erase (s.now, id)).map (fun p : Nat × Nat => p.2)) (s.wgcs.map (fun p : Nat × Nat => p.2)) :=
-    List.Sublist.map _ List.erase_sublist
-  have hretry : ∀ p ∈ s.wgcs.erase (s.now, id), p.2 ∉ s.wfs.erase id → p ∈ s.wgcs ∧ p.2 ∉ s.wfs := by
-    intro p hp hn
-    obtain ⟨hpw, hpid⟩ := c.other p hp
-    exact ⟨hpw, fun hc => hn ((c.memW _).mpr ⟨hpid, hc⟩)⟩
-  refine ⟨h.P_pos, h.t_tick, h.t_emu, ?_, h.got_nd, h.in_nd, h.in_fresh, ?_, ?_, ?_, h.sent_got, ?_,
-    h.q_nd, h.wfs_nd.erase id, nodup_finAfter h id, ?_, h.sent_nd, ?_, ?_, ?_, ?_, ?_, ?_, h.q_emu, h.nt_emu,
-    fun _ => Or.inl hne, ?_, h.emu_sec, ?_, ?_, ?_, ?_⟩
-  · intro p hp; exact h.t_wgc p (c.other p hp).1
+/-- first event of request `id`: the entry is deleted and the id recorded. `W` = the pending
+    completion events without the one being handled. -/
+theorem ncore_record {s : Emu} (h : NCore s) (id : Nat) (W : List (Nat × Nat)) (hidw : id ∈ s.wfs)
+    (hidq : id ∉ s.queue) (hW1 : ∀ p ∈ W, p ∈ s.wgcs) (hW2 : ∀ p ∈ s.wgcs, p.2 ≠ id → p ∈ W) :
+    NCore { s with wgcs := W, wfs := s.wfs.erase id, finished := s.finished ++ [id] } := by
+  have memW : ∀ x, x ∈ s.wfs.erase id ↔ x ≠ id ∧ x ∈ s.wfs := fun x => h.wfs_nd.mem_erase_iff
+  have hidg : id ∈ s.got := h.wfs_got id hidw
+  refine ⟨h.got_nd, h.in_nd, h.in_fresh, ?_, ?_, ?_, ?_, h.sent_got, ?_, h.wfs_nd.erase id,
+    nodup_snoc h.fin_nd (h.wfs_fin id hidw), h.sent_nd, ?_, ?_, ?_, ?_, ?_⟩
   · intro x hx
-    exact (c.memW x).mpr ⟨fun hc => c.notQ (hc ▸ hx), h.q_wfs x hx⟩
-  · intro x hx; exact h.wfs_got x ((c.memW x).mp hx).2
+    exact (memW x).mpr ⟨fun hc => hidq (hc ▸ hx), h.q_wfs x hx⟩
+  · intro x hx hc
+    obtain ⟨p, hp, hp2⟩ := List.mem_map.mp hc
+    exact h.q_wid x hx (List.mem_map.mpr ⟨p, hW1 p hp, hp2⟩)
+  · intro x hx; exact h.wfs_got x ((memW x).mp hx).2
   · intro x hx
-    rcases (mem_finAfter s id x).mp hx with hx | hx
+    rcases mem_snoc.mp hx with hx | hx
     · exact h.fin_got x hx
-    · rw [hx]; exact c.idGot
-  · intro p hp; exact h.wid_got p (c.other p hp).1
-  · exact List.Nodup.sublist hsub h.wid_nd
+    · rw [hx]; exact hidg
+  · intro p hp; exact h.wid_got p (hW1 p hp)
   · intro x hx hf
-    obtain ⟨hxid, hxw⟩ := (c.memW x).mp hx
-    rcases (mem_finAfter s id x).mp hf with hf | hf
+    obtain ⟨hxid, hxw⟩ := (memW x).mp hx
+    rcases mem_snoc.mp hf with hf | hf
     · exact h.wfs_fin x hxw hf
     · exact hxid hf
-  · intro x hx; exact h.wfs_sent x ((c.memW x).mp hx).2
+  · intro x hx; exact h.wfs_sent x ((memW x).mp hx).2
   · intro x hx
-    rcases (mem_finAfter s id x).mp hx with hx | hx
+    rcases mem_snoc.mp hx with hx | hx
     · exact h.fin_sent x hx
-    · rw [hx]; exact c.notSent
-  · intro x hx hc
-    exact h.q_wid x hx (hsub.subset hc)
-  · intro p hp
-    obtain ⟨hpw, hpid⟩ := c.other p hp
-    refine ⟨(h.wgc_ok p hpw).1, ?_⟩
-    rcases (h.wgc_ok p hpw).2 with h1 | h1
-    · exact Or.inl ((c.memW _).mpr ⟨hpid, h1⟩)
-    · exact Or.inr ((mem_finAfter s id _).mpr (Or.inl h1))
+    · rw [hx]; exact h.wfs_sent id hidw
   · intro x hx
-    obtain ⟨hxid, hxw⟩ := (c.memW x).mp hx
+    obtain ⟨hxid, hxw⟩ := (memW x).mp hx
     rcases h.wfs_cov x hxw with h1 | h1
     · exact Or.inl h1
     · right
       obtain ⟨p, hp, hp2⟩ := List.mem_map.mp h1
-      exact List.mem_map.mpr ⟨p, c.keep p hp (by rw [hp2]; exact hxid), hp2⟩
+      exact List.mem_map.mpr ⟨p, hW2 p hp (by rw [hp2]; exact hxid), hp2⟩
   · intro x hx
     by_cases hxid : x = id
-    · right; left; exact (mem_finAfter s id x).mpr (Or.inr hxid)
+    · right; left; exact mem_snoc.mpr (Or.inr hxid)
     · rcases h.got_cov x hx with h1 | h1 | h1
-      · exact Or.inl ((c.memW x).mpr ⟨hxid, h1⟩)
-      · exact Or.inr (Or.inl ((mem_finAfter s id x).mpr (Or.inl h1)))
+      · exact Or.inl ((memW x).mpr ⟨hxid, h1⟩)
+      · exact Or.inr (Or.inl (mem_snoc.mpr (Or.inl h1)))
       · exact Or.inr (Or.inr h1)
-  · intro p hp hn
-    obtain ⟨hpw, hpn⟩ := hretry p hp hn
-    exact h.r_soon p hpw hpn
-  · intro p hp hn q hq hqw
-    obtain ⟨hpw, hpn⟩ := hretry p hp hn
-    exact h.r_first p hpw hpn q (c.other q hq).1 ((c.memW _).mp hqw).2
-  · intro p hp hn hq e he
-    obtain ⟨hpw, hpn⟩ := hretry p hp hn
-    exact h.r_emu p hpw hpn hq e he
-  · intro p hp hn q hq hqn
-    obtain ⟨hpw, hpn⟩ := hretry p hp hn
-    obtain ⟨hqw, hqn'⟩ := hretry q hq hqn
-    exact h.r_one p hpw hpn q hqw hqn'
 
-/-- last group, port has room: one message with every finished id -/
-theorem einv_wgc_send {s : Emu} {id : Nat} (c : WgcCtx s id) (hlast : s.wfs.erase id = [])
-    (out' : List (List Nat)) :
-    EInv { s with wgcs := s.wgcs.erase (s.now, id), wfs := s.wfs.erase id, finished := [], out := out',
-                  sent := s.sent ++ [finAfter s id] } := by
-  have h := c.inv
-  obtain ⟨hW, hQ⟩ := last_group_alone c hlast
-  rw [hW, hlast]
-  have hflat : ∀ x, x ∈ (s.sent ++ [finAfter s id]).flatten ↔ x ∈ flat s ∨ x ∈ finAfter s id := by
-    intro x; simp [flat]
-  have hwfs : ∀ x ∈ s.wfs, x = id := by
-    intro x hx
-    false_or_by_contra
-    rename_i hne
-    have : x ∈ s.wfs.erase id := (c.memW x).mpr ⟨hne, hx⟩
-    rw [hlast] at this
-    cases this
-  refine ⟨h.P_pos, h.t_tick, h.t_emu, (by intro p hp; cases hp), h.got_nd, h.in_nd, h.in_fresh, ?_,
-    (by intro x hx; cases hx), (by intro x hx; cases hx), ?_, (by intro p hp; cases hp),
-    h.q_nd, List.nodup_nil, List.nodup_nil, List.nodup_nil, ?_, (by intro x hx; cases hx),
-    (by intro x hx; cases hx), (by intro x hx; cases hx), ?_, (by intro p hp; cases hp), (by intro x hx; cases hx),
-    h.q_emu, h.nt_emu, fun hc => absurd rfl hc, ?_, h.emu_sec, (by intro p hp; cases hp),
-    (by intro p hp; cases hp), (by intro p hp; cases hp), (by intro p hp; cases hp)⟩
+/-- a later event of request `id` (retry, or whatever): nothing is recorded -/
+theorem ncore_norecord {s : Emu} (h : NCore s) (id : Nat) (W : List (Nat × Nat)) (hidw : id ∉ s.wfs)
+    (hW1 : ∀ p ∈ W, p ∈ s.wgcs) (hW2 : ∀ p ∈ s.wgcs, p.2 ≠ id → p ∈ W) :
+    NCore { s with wgcs := W } := by
+  refine ⟨h.got_nd, h.in_nd, h.in_fresh, h.q_wfs, ?_, h.wfs_got, h.fin_got, h.sent_got, ?_, h.wfs_nd,
+    h.fin_nd, h.sent_nd, h.wfs_fin, h.wfs_sent, h.fin_sent, ?_, h.got_cov⟩
+  · intro x hx hc
+    obtain ⟨p, hp, hp2⟩ := List.mem_map.mp hc
+    exact h.q_wid x hx (List.mem_map.mpr ⟨p, hW1 p hp, hp2⟩)
+  · intro p hp; exact h.wid_got p (hW1 p hp)
   · intro x hx
-    have : x ∈ s.queue := hx
-    rw [hQ] at this
-    cases this
-  · intro x hx
-    rcases (hflat x).mp hx with hx | hx
-    · exact h.sent_got x hx
-    · rcases (mem_finAfter s id x).mp hx with hx | hx
-      · exact h.fin_got x hx
-      · rw [hx]; exact c.idGot
-  · show ((s.sent ++ [finAfter s id]).flatten).Nodup
-    rw [List.flatten_append, List.nodup_append]
-    refine ⟨h.sent_nd, by simpa using nodup_finAfter h id, ?_⟩
-    intro a ha b hb hab
-    subst hab
-    have hb' : a ∈ finAfter s id := by simpa using hb
-    rcases (mem_finAfter s id a).mp hb' with hb' | hb'
-    · exact h.fin_sent a hb' ha
-    · exact c.notSent (hb' ▸ ha)
-  · intro x hx
-    have : x ∈ s.queue := hx
-    rw [hQ] at this
-    cases this
-  · intro x hx
-    right; right
-    apply (hflat x).mpr
-    rcases h.got_cov x hx with h1 | h1 | h1
-    · exact Or.inr ((mem_finAfter s id x).mpr (Or.inr (hwfs x h1)))
-    · exact Or.inr ((mem_finAfter s id x).mpr (Or.inl h1))
+    rcases h.wfs_cov x hx with h1 | h1
     · exact Or.inl h1
+    · right
+      obtain ⟨p, hp, hp2⟩ := List.mem_map.mp h1
+      exact List.mem_map.mpr ⟨p, hW2 p hp (by rw [hp2]; intro hc; exact hidw (hc ▸ hx)), hp2⟩
 
-/-- last group, port full: the event is scheduled again one cycle later -/
-theorem einv_wgc_retry {s : Emu} {id : Nat} (c : WgcCtx s id) (hlast : s.wfs.erase id = []) :
-    EInv { s with wgcs := s.wgcs.erase (s.now, id) ++ [(s.now + 1, id)], wfs := s.wfs.erase id,
-                  finished := finAfter s id } := by
-  have h := c.inv
-  obtain ⟨hW, hQ⟩ := last_group_alone c hlast
-  rw [hW, hlast]
-  have hwfs : ∀ x ∈ s.wfs, x = id := by
-    intro x hx
-    false_or_by_contra
-    rename_i hne
-    have : x ∈ s.wfs.erase id := (c.memW x).mpr ⟨hne, hx⟩
-    rw [hlast] at this
-    cases this
-  have hidf : id ∈ finAfter s id := (mem_finAfter s id id).mpr (Or.inr rfl)
-  have hone : ∀ p ∈ ([] : List (Nat × Nat)) ++ [(s.now + 1, id)], p = (s.now + 1, id) := by
-    intro p hp; simpa using hp
-  refine ⟨h.P_pos, h.t_tick, h.t_emu, ?_, h.got_nd, h.in_nd, h.in_fresh, ?_,
-    (by intro x hx; cases hx), ?_, h.sent_got, ?_,
-    h.q_nd, List.nodup_nil, nodup_finAfter h id, (by simp [wids]), h.sent_nd, (by intro x hx; cases hx),
-    (by intro x hx; cases hx), ?_, ?_, ?_, (by intro x hx; cases hx),
-    h.q_emu, h.nt_emu, ?_, ?_, h.emu_sec, ?_, ?_, ?_, ?_⟩
-  · intro p hp; rw [hone p hp]; show s.now ≤ s.now + 1; omega
-  · intro x hx
-    have : x ∈ s.queue := hx
-    rw [hQ] at this
-    cases this
-  · intro x hx
-    rcases (mem_finAfter s id x).mp hx with hx | hx
-    · exact h.fin_got x hx
-    · rw [hx]; exact c.idGot
-  · intro p hp; rw [hone p hp]; exact c.idGot
-  · intro x hx
-    rcases (mem_finAfter s id x).mp hx with hx | hx
-    · exact h.fin_sent x hx
-    · rw [hx]; exact c.notSent
-  · intro x hx
-    have : x ∈ s.queue := hx
-    rw [hQ] at this
-    cases this
-  · intro p hp; rw [hone p hp]; exact ⟨c.notSent, Or.inr hidf⟩
-  · intro _; right; exact ⟨(s.now + 1, id), by simp, by simp⟩
-  · intro x hx
-    rcases h.got_cov x hx with h1 | h1 | h1
-    · right; left; exact (mem_finAfter s id x).mpr (Or.inr (hwfs x h1))
-    · right; left; exact (mem_finAfter s id x).mpr (Or.inl h1)
-    · exact Or.inr (Or.inr h1)
-  · intro p hp _; rw [hone p hp]; show s.now + 1 ≤ s.now + 1; omega
-  · intro p _ _ q _ hq; cases hq
-  · intro p _ _ hq
-    have : s.queue ≠ [] := hq
-    exact absurd hQ this
-  · intro p hp _ q hq _; rw [hone p hp, hone q hq]
-
-theorem einv_wgComplete {s : Emu} (h : EInv s) (id : Nat) (hmem : (s.now, id) ∈ s.wgcs) :
-    EInv (wgComplete { s with wgcs := s.wgcs.erase (s.now, id) } id) := by
-  have c := wgcCtx h id hmem
-  unfold wgComplete
+/-- `wgRecord` on the state whose handled event `(t, id)` has been removed -/
+theorem ncore_wgRecord {s : Emu} (h : NCore s) (t id : Nat) (hmem : (t, id) ∈ s.wgcs) :
+    NCore (wgRecord { s with wgcs := s.wgcs.erase (t, id), now := t } id) ∧
+    id ∈ (wgRecord { s with wgcs := s.wgcs.erase (t, id), now := t } id).got := by
+  have hidq : id ∉ s.queue := fun hq => h.q_wid id hq (List.mem_map.mpr ⟨_, hmem, rfl⟩)
+  have hW1 : ∀ p ∈ s.wgcs.erase (t, id), p ∈ s.wgcs := fun p hp => List.mem_of_mem_erase hp
+  have hW2 : ∀ p ∈ s.wgcs, p.2 ≠ id → p ∈ s.wgcs.erase (t, id) := by
+    intro p hp hne
+    exact (List.mem_erase_of_ne (fun hc => hne (by rw [hc]))).mpr hp
+  have hg : id ∈ s.got := h.wid_got _ hmem
+  unfold wgRecord
   dsimp only
-  by_cases hlast : s.wfs.erase id = []
-  · have hne : ¬ (s.wfs.erase id ≠ []) := fun hc => hc hlast
-    rw [if_neg hne]
+  by_cases hidw : id ∈ s.wfs
+  · rw [if_pos hidw]
+    exact ⟨ncore_frame (ncore_record h id _ hidw hidq hW1 hW2) rfl rfl rfl rfl rfl rfl rfl, hg⟩
+  · rw [if_neg hidw]
+    exact ⟨ncore_frame (ncore_norecord h id _ hidw hW1 hW2) rfl rfl rfl rfl rfl rfl rfl, hg⟩
+
+/-- second half: return / one message with every finished id / retry event -/
+theorem ninv_wgFlush {s : Emu} (h : NCore s) (id : Nat) (hid : id ∈ s.got) : NInv (wgFlush s id) := by
+  unfold wgFlush
+  split
+  · rename_i hc
+    refine ⟨h, ?_⟩
+    intro hf
+    rcases hc with hc | hc
+    · exact Or.inl hc
+    · exact absurd hc hf
+  · rename_i hc
+    have hwe : s.wfs = [] := Decidable.byContradiction fun hn => hc (Or.inl hn)
+    have hnow : ∀ x, x ∉ s.wfs := by intro x hx; rw [hwe] at hx; cases hx
+    have hqe : ∀ x, x ∉ s.queue := fun x hx => hnow x (h.q_wfs x hx)
     split
-    · exact einv_wgc_send c hlast _
-    · exact einv_wgc_retry c hlast
-  · rw [if_pos hlast]
-    exact einv_wgc_wait c hlast
+    · -- room: one message
+      have hflat : ∀ x, x ∈ (s.sent ++ [s.finished]).flatten ↔ x ∈ flat s ∨ x ∈ s.finished := by
+        intro x; simp [flat]
+      refine ⟨⟨h.got_nd, h.in_nd, h.in_fresh, h.q_wfs, h.q_wid, h.wfs_got, ?_, ?_, h.wid_got, h.wfs_nd,
+        List.nodup_nil, ?_, ?_, ?_, ?_, h.wfs_cov, ?_⟩, ?_⟩
+      · intro x hx; cases hx
+      · intro x hx
+        rcases (hflat x).mp hx with hx | hx
+        · exact h.sent_got x hx
+        · exact h.fin_got x hx
+      · show ((s.sent ++ [s.finished]).flatten).Nodup
+        rw [List.flatten_append, List.nodup_append]
+        refine ⟨h.sent_nd, by simpa using h.fin_nd, ?_⟩
+        intro a ha b hb hab
+        subst hab
+        have hb' : a ∈ s.finished := by simpa using hb
+        exact h.fin_sent a hb' ha
+      · intro x hx; exact absurd hx (hnow x)
+      · intro x hx; exact absurd hx (hnow x)
+      · intro x hx; cases hx
+      · intro x hx
+        right; right
+        apply (hflat x).mpr
+        rcases h.got_cov x hx with h1 | h1 | h1
+        · exact absurd h1 (hnow x)
+        · exact Or.inr h1
+        · exact Or.inl h1
+      · intro hf; exact absurd rfl hf
+    · -- port full: the event is scheduled again one cycle later
+      refine ⟨⟨h.got_nd, h.in_nd, h.in_fresh, h.q_wfs, ?_, h.wfs_got, h.fin_got, h.sent_got, ?_, h.wfs_nd,
+        h.fin_nd, h.sent_nd, h.wfs_fin, h.wfs_sent, h.fin_sent, ?_, h.got_cov⟩, ?_⟩
+      · intro x hx; exact absurd hx (hqe x)
+      · intro p hp
+        rcases List.mem_append.mp hp with hp | hp
+        · exact h.wid_got p hp
+        · simp at hp; rw [hp]; exact hid
+      · intro x hx; exact absurd hx (hnow x)
+      · intro _
+        right
+        show s.wgcs ++ [(s.now + 1, id)] ≠ []
+        simp
 
-theorem einv_fireWgc {s : Emu} (h : EInv s) (t id : Nat) (hok : EOk s (.wgc t id)) :
-    EInv (fireWgc s t id) := by
-  obtain ⟨hmem, hm⟩ := hok
-  have hle : s.now ≤ t := h.t_wgc _ hmem
-  have h1 := einv_advance h t hm hle
-  exact einv_wgComplete h1 id hmem
+/-- a pending WGCompleteEvent fires — at any time, in any order -/
+theorem ninv_fireWgc {s : Emu} (h : NInv s) (t id : Nat) (hmem : (t, id) ∈ s.wgcs) :
+    NInv (fireWgc s t id) := by
+  obtain ⟨h1, h2⟩ := ncore_wgRecord h.core t id hmem
+  exact ninv_wgFlush h1 id h2
 
-/-- every step the hypotheses allow keeps the invariant -/
-theorem einv_step {s : Emu} (h : EInv s) (o : EOp) (hok : EOk s o) : EInv (estep s o) := by
+/-- every step keeps the bookkeeping invariant: fresh ids and "only a pending WGCompleteEvent
+    fires" are the only obligations -/
+theorem ninv_step {s : Emu} (h : NInv s) (o : EOp) (hok : EOkLoose s o) : NInv (estep s o) := by
   cases o with
-  | deliver id => exact einv_deliver h id hok
-  | fill => exact einv_fill h
-  | take => exact einv_take h
-  | tick t => exact einv_fireTick h t hok
-  | emu t => exact einv_fireEmu h t hok
-  | wgc t id => exact einv_fireWgc h t id hok
+  | deliver id => exact ninv_deliver h id hok.1 hok.2
+  | fill => exact ninv_fill h
+  | take => exact ninv_take h
+  | tick t => exact ninv_fireTick h t
+  | emu t => exact ninv_fireEmu h t
+  | wgc t id => exact ninv_fireWgc h t id hok
+
+/-! ## time -/
+
+theorem wgRecord_time (s : Emu) (id : Nat) :
+    (wgRecord s id).P = s.P ∧ (wgRecord s id).now = s.now ∧ (wgRecord s id).nextTick = s.nextTick ∧
+    (wgRecord s id).queue = s.queue ∧ (wgRecord s id).emus = s.emus ∧ (wgRecord s id).ticks = s.ticks ∧
+    (wgRecord s id).wgcs = s.wgcs := by
+  unfold wgRecord
+  split <;> exact ⟨rfl, rfl, rfl, rfl, rfl, rfl, rfl⟩
+
+theorem wgRecord_port (s : Emu) (id : Nat) :
+    (wgRecord s id).incap = s.incap ∧ (wgRecord s id).tickAt = s.tickAt ∧ (wgRecord s id).inbuf = s.inbuf := by
+  unfold wgRecord
+  split <;> exact ⟨rfl, rfl, rfl⟩
+
+theorem wgFlush_time (s : Emu) (id : Nat) :
+    (wgFlush s id).P = s.P ∧ (wgFlush s id).now = s.now ∧ (wgFlush s id).nextTick = s.nextTick ∧
+    (wgFlush s id).queue = s.queue ∧ (wgFlush s id).emus = s.emus ∧ (wgFlush s id).ticks = s.ticks ∧
+    ((wgFlush s id).wgcs = s.wgcs ∨ (wgFlush s id).wgcs = s.wgcs ++ [(s.now + 1, id)]) := by
+  unfold wgFlush
+  split
+  · exact ⟨rfl, rfl, rfl, rfl, rfl, rfl, Or.inl rfl⟩
+  · split
+    · exact ⟨rfl, rfl, rfl, rfl, rfl, rfl, Or.inl rfl⟩
+    · exact ⟨rfl, rfl, rfl, rfl, rfl, rfl, Or.inr rfl⟩
+
+theorem wgFlush_port (s : Emu) (id : Nat) :
+    (wgFlush s id).incap = s.incap ∧ (wgFlush s id).tickAt = s.tickAt ∧ (wgFlush s id).inbuf = s.inbuf := by
+  unfold wgFlush
+  split
+  · exact ⟨rfl, rfl, rfl⟩
+  · split <;> exact ⟨rfl, rfl, rfl⟩
+
+theorem etime_wgComplete {s : Emu} (h : ETime s) (id : Nat) : ETime (wgComplete s id) := by
+  unfold wgComplete
+  obtain ⟨r1, r2, r3, r4, r5, r6, r7⟩ := wgRecord_time s id
+  obtain ⟨f1, f2, f3, f4, f5, f6, f7⟩ := wgFlush_time (wgRecord s id) id
+  refine etime_frame h (f1.trans r1) (f2.trans r2) (f3.trans r3) (f4.trans r4) (f5.trans r5) ?_ ?_
+  · intro t ht
+    rw [f6, r6] at ht
+    exact h.t_tick t ht
+  · intro p hp
+    rcases f7 with f7 | f7
+    · rw [f7, r7] at hp
+      exact h.t_wgc p hp
+    · rw [f7, r7, r2] at hp
+      rcases List.mem_append.mp hp with hp | hp
+      · exact h.t_wgc p hp
+      · simp at hp
+        rw [hp]
+        show s.now ≤ s.now + 1
+        omega
+
+theorem etime_fireWgc {s : Emu} (h : ETime s) (t id : Nat) (hok : Legal s (.wgc t id)) :
+    ETime (fireWgc s t id) := by
+  obtain ⟨hmem, hm⟩ := hok
+  have h1 := etime_advance h t hm (h.t_wgc _ hmem)
+  have h2 : ETime { s with wgcs := s.wgcs.erase (t, id), now := t } :=
+    etime_frame h1 rfl rfl rfl rfl rfl h1.t_tick (fun p hp => h1.t_wgc p (List.mem_of_mem_erase hp))
+  exact etime_wgComplete h2 id
+
+/-- every step of a time-ordered engine (any tie-break, whole seconds included) keeps `ETime` -/
+theorem etime_step {s : Emu} (h : ETime s) (o : EOp) (hok : Legal s o) : ETime (estep s o) := by
+  cases o with
+  | deliver id => exact etime_deliver h id
+  | fill => exact etime_fill h
+  | take => exact etime_take h
+  | tick t => exact etime_fireTick h t hok
+  | emu t => exact etime_fireEmu h t hok
+  | wgc t id => exact etime_fireWgc h t id hok
 
 end C09.CUSide
